@@ -8,12 +8,13 @@
 From Coq Require Import List Arith Bool Lia.
 Import ListNotations.
 
-Record frame := mkFrame { f_base : nat; f_scope : nat; f_fn : nat }.
+Record frame := mkFrame { f_base : nat; f_scope : nat; f_fn : nat; f_nlab : nat }.
 Record bst := mkSt {
   stk : nat;            (* InternalStack().Len() *)
   base : nat;           (* current.base *)
   scope : nat;          (* identity of current.scope *)
   fn : nat;             (* identity of current.fn (0 = none) *)
+  nlab : nat;           (* number of labels in current.labels (label context of the current function) *)
   saved : list frame;   (* the `old` contexts of the open blocks, innermost first *)
   nscope : nat;         (* next fresh scope identity *)
   nfn : nat             (* next fresh function identity *)
@@ -27,6 +28,9 @@ Inductive bop :=
 | OStmt (k : nat)       (* consumes k operands, emits a statement: Assign, IncDec, Send, Go, Defer, Return, EndInit *)
 | OEndStmt              (* pops the at most one operand above base *)
 | ONop                  (* Label, Break/Continue/Goto/Fallthrough, NewFunc, NewClosure, InitStart *)
+| ONewLabel             (* NewLabel: one more label in the current function's label context *)
+| OInlineStart (arity : nat)  (* CallInlineClosureStart: the arguments are consumed by the parameter initialisers *)
+| OInlineEnd (nres : nat)     (* inline closure End: endFuncBody, then push the result variables *)
 | OOpen                 (* startBlockStmt *)
 | OOpenFn               (* startFuncBody *)
 | OThenOpen             (* ifStmt.Then / forStmt.Then : pop the condition, open the body block *)
@@ -39,19 +43,27 @@ Inductive bop :=
 | OCloseFnPush.         (* closure End : endFuncBody, then push the function literal *)
 
 Definition pop (k : nat) (s : bst) : option bst :=
-  if base s + k <=? stk s then Some (mkSt (stk s - k) (base s) (scope s) (fn s) (saved s) (nscope s) (nfn s))
+  if base s + k <=? stk s then Some (mkSt (stk s - k) (base s) (scope s) (fn s) (nlab s) (saved s) (nscope s) (nfn s))
   else None.
-Definition push (s : bst) : bst := mkSt (S (stk s)) (base s) (scope s) (fn s) (saved s) (nscope s) (nfn s).
+Definition push (s : bst) : bst := mkSt (S (stk s)) (base s) (scope s) (fn s) (nlab s) (saved s) (nscope s) (nfn s).
+Fixpoint pushn (n : nat) (s : bst) : bst := match n with 0 => s | S m => pushn m (push s) end.
 
 Definition open (s : bst) : bst :=
-  mkSt (stk s) (stk s) (nscope s) (fn s) (mkFrame (base s) (scope s) (fn s) :: saved s) (S (nscope s)) (nfn s).
+  mkSt (stk s) (stk s) (nscope s) (fn s) (nlab s) (mkFrame (base s) (scope s) (fn s) (nlab s) :: saved s) (S (nscope s)) (nfn s).
+(* startFuncBody: new function identity, empty label context *)
 Definition open_fn (s : bst) : bst :=
-  mkSt (stk s) (stk s) (nscope s) (nfn s) (mkFrame (base s) (scope s) (fn s) :: saved s) (S (nscope s)) (S (nfn s)).
-(* endBlockStmt: stk.SetLen(current.base); current = old *)
+  mkSt (stk s) (stk s) (nscope s) (nfn s) 0 (mkFrame (base s) (scope s) (fn s) (nlab s) :: saved s) (S (nscope s)) (S (nfn s)).
+(* endBlockStmt: stk.SetLen(current.base); current = old (labels belong to the function, not the block) *)
 Definition close (s : bst) : option bst :=
   match saved s with
   | [] => None
-  | f :: r => Some (mkSt (base s) (f_base f) (f_scope f) (f_fn f) r (nscope s) (nfn s))
+  | f :: r => Some (mkSt (base s) (f_base f) (f_scope f) (f_fn f) (nlab s) r (nscope s) (nfn s))
+  end.
+(* endFuncBody: additionally restores the enclosing function's label context *)
+Definition close_fn (s : bst) : option bst :=
+  match saved s with
+  | [] => None
+  | f :: r => Some (mkSt (base s) (f_base f) (f_scope f) (f_fn f) (f_nlab f) r (nscope s) (nfn s))
   end.
 
 Definition obind {A B} (o : option A) (f : A -> option B) : option B :=
@@ -66,6 +78,9 @@ Definition bstep (s : bst) (o : bop) : option bst :=
   | OStmt k => pop k s
   | OEndStmt => if stk s - base s <=? 1 then pop (stk s - base s) s else None
   | ONop => Some s
+  | ONewLabel => Some (mkSt (stk s) (base s) (scope s) (fn s) (S (nlab s)) (saved s) (nscope s) (nfn s))
+  | OInlineStart a => obind (pop a s) (fun s' => Some (open_fn s'))
+  | OInlineEnd n => obind (close_fn s) (fun s' => Some (pushn n s'))
   | OOpen => Some (open s)
   | OOpenFn => Some (open_fn s)
   | OThenOpen => obind (pop 1 s) (fun s' => Some (open s'))
@@ -74,8 +89,8 @@ Definition bstep (s : bst) (o : bop) : option bst :=
   | OElse => obind (close s) (fun s' => Some (open s'))
   | OClose => close s
   | OClose2 => obind (close s) close
-  | OCloseFn => close s
-  | OCloseFnPush => obind (close s) (fun s' => Some (push s'))
+  | OCloseFn => close_fn s
+  | OCloseFnPush => obind (close_fn s) (fun s' => Some (push s'))
   end.
 
 Fixpoint run (ops : list bop) (s : bst) : option bst :=
@@ -86,7 +101,7 @@ Fixpoint run (ops : list bop) (s : bst) : option bst :=
 
 (* ---------- statement syntax (twin of harness/ir.go irStmt) ---------- *)
 Inductive cstmt :=
-| CAssign | CInc | CSend | CCall | CGo | CDefer | CDefine | CEmpty | CPanic
+| CAssign | CInc | CSend | CCall | CGo | CDefer | CDefine | CEmpty | CPanic | CConstExpr
 | CReturn (with_value : bool)
 | CBranch
 | CLabeled (placed : bool) (s : cstmt)
@@ -97,7 +112,8 @@ Inductive cstmt :=
 | CSwitch (tag : bool) (cs : cclauses)
 | CTSwitch (cs : cclauses)
 | CSelect (cs : cclauses)
-| CClosure (body : cstmts)
+| CClosure (nlabels : nat) (body : cstmts)
+| CInline (body : cstmts)        (* x = func(a int) int { body; return a }(x) as an inline closure call *)
 with cstmts := CNil | CCons (s : cstmt) (r : cstmts)
 with cclauses := CCNil | CCCons (default : bool) (body : cstmts) (r : cclauses)
 with celse := ENone | EBlock (l : cstmts) | EIf (s : cstmt).
@@ -127,6 +143,7 @@ Fixpoint compile (s : cstmt) : list bop :=
   | CDefine => [ONop; OPush; OStmt 1]
   | CEmpty => []
   | CPanic => [OPush; OPush; OCall 1; OEndStmt]
+  | CConstExpr => [OPush; OPush; OBinary; OEndStmt]
   | CReturn true => [OPush; OStmt 1]
   | CReturn false => [OStmt 0]
   | CBranch => [ONop]
@@ -142,7 +159,9 @@ Fixpoint compile (s : cstmt) : list bop :=
       OOpen :: [OPush; OThenPop] ++ compile_clauses (if tag then 0 else 1) cs ++ [OClose]
   | CTSwitch cs => OOpen :: [OPush; OThenPop] ++ compile_clauses 2 cs ++ [OClose]
   | CSelect cs => OOpen :: compile_clauses 3 cs ++ [OClose]
-  | CClosure body => ONop :: OOpenFn :: compile_list body ++ [OCloseFnPush; OCall 0; OEndStmt]
+  | CClosure nl body => ONop :: OOpenFn :: repeat ONewLabel nl ++ compile_list body ++ [OCloseFnPush; OCall 0; OEndStmt]
+  | CInline body =>
+      [OPush; OPush; OInlineStart 1] ++ compile_list body ++ [OPush; OStmt 1; OInlineEnd 1; OStmt 2]
   end
 with compile_list (l : cstmts) : list bop :=
   match l with CNil => [] | CCons s r => compile s ++ compile_list r end
@@ -160,6 +179,7 @@ with compile_else (e : celse) : list bop :=
   end.
 
 (* a whole function: NewFunc, BodyStart, body, End *)
-Definition compile_func (body : cstmts) : list bop := ONop :: OOpenFn :: compile_list body ++ [OCloseFn].
+Definition compile_func (nlabels : nat) (body : cstmts) : list bop :=
+  ONop :: OOpenFn :: repeat ONewLabel nlabels ++ compile_list body ++ [OCloseFn].
 
-Definition init_st : bst := mkSt 0 0 0 0 [] 1 1.
+Definition init_st : bst := mkSt 0 0 0 0 0 [] 1 1.
